@@ -12,8 +12,9 @@ import WhatIs.Model.Pem
   * `findBlock`  : the `TryNextBlock` loop — skip lines until one that (trimmed) starts with "-----BEGIN " and is longer
                    than 16 bytes, read `Key: Value` header lines up to the first blank line (continuation pieces of an
                    over-long header line are appended to the value, bounded by 64 KiB), start over after a header line
-                   without ": ".  Every pass consumes at least one line: the loop terminates (`findBlock` is structural
-                   on a fuel that `findBlock_fuel` shows is never exhausted).
+                   without ": ".  Every pass consumes at least one line, so the Go loop terminates; in the model the
+                   three loops run on a fuel of input length + 1 (that it is never exhausted is not proved here, only
+                   explored by the correspondence; the round-trip theorems do not depend on it).
   * `bodyChars`  : `lineReader.Read` — the characters handed to the base64 decoder (the body lines without their line
                    ends), the checksum line "=XXXX" (which must be followed by an "-----END " line), the 96-byte limit.
   * `crc24`      : the checksum of RFC 4880 §6.1.
@@ -162,12 +163,9 @@ inductive Res where
   | unmodelled               -- padding before the last quantum: depends on how the reads fall (see the file comment)
   deriving Repr
 
-/-- is there a '=' followed, later, by a base64 character? -/
+/-- is there a '=' followed, later, by another character?  (CR / LF do not count: the decoder skips them) -/
 def paddingInside (chars : Bytes) : Bool :=
-  let stripped := chars.filter fun c => c ≠ 13 ∧ c ≠ 10
-  match stripped.idxOf? 61 with
-  | none => false
-  | some i => (stripped.drop i).any fun c => c ≠ 61
+  ((chars.filter fun c => c ≠ 13 ∧ c ≠ 10).dropWhile fun c => c ≠ 61).any fun c => c ≠ 61
 
 /-- `armor.Decode` followed by reading the body to its end -/
 def decode (input : Bytes) : Res :=
